@@ -39,6 +39,7 @@ class SimKernel(object):
             mod = sys.modules[self.module_name]
             self.fn, self.regions, self.ns = kt.transform_kernel(self.py_func, vars(mod))
             self.sig = inspect.signature(self.py_func)
+            self.thread_aware = kt.uses_thread_queries(self.py_func)
 
     def __call__(self, *args, **kwargs):
         self.prepare()
@@ -62,6 +63,7 @@ class Sim(object):
         self.violation_count = 0
         self.replay_plan = config.get("replay_plan")  # {region#: [schedule json]} for exact replays
         self.enabled = True
+        self.declared_threads = None  # what numba.get_num_threads() answers inside interpreted kernels
 
     # ------------------------------------------------------------------ installation
     def install(self):
@@ -97,9 +99,48 @@ class Sim(object):
         self.kernel_stack.append(k)
         try:
             self.launch_oracle(k, args, kwargs)
+            if getattr(k, "thread_aware", False) and not self.in_region and self.declared_threads is None:
+                return self.run_thread_aware_kernel(k, args, kwargs)
             return k.fn(*args, **kwargs)
         finally:
             self.kernel_stack.pop()
+
+    def run_thread_aware_kernel(self, k, args, kwargs):
+        """A kernel that asks the runtime for the thread count is executed once per declared count
+        (1 last, so that its outputs are the ones the assembly continues with); all outputs -- return value
+        and array arguments -- must be bitwise identical to the single-thread execution."""
+        self.out.probe("thread_aware_kernel_calls")
+        arrays = [(i, a) for i, a in enumerate(args) if isinstance(a, np.ndarray)]
+        arrays += [(nm, a) for nm, a in kwargs.items() if isinstance(a, np.ndarray)]
+        snap = [(key, a.copy()) for key, a in arrays]
+        counts = [c for c in self.cfg.get("worker_counts", [2, 7, 16]) if c != 1]
+        for extra in (2, 7, 16):
+            if extra not in counts:
+                counts.append(extra)
+        digests = {}
+        saved_cfg = self.cfg
+        ret = None
+        try:
+            for T in counts + [1]:
+                for (key, a), (_, s0) in zip(arrays, snap):
+                    a[...] = s0
+                self.declared_threads = T
+                self.cfg = dict(saved_cfg, worker_counts=[T]) if T != 1 else dict(saved_cfg, K=0, max_directed=0)
+                ret = k.fn(*args, **kwargs)
+                digests[T] = _digest_outputs(ret, [a for _, a in arrays])
+        finally:
+            self.declared_threads = None
+            self.cfg = saved_cfg
+        bad = sorted(T for T in digests if digests[T] != digests[1])
+        self.out.events.append(["thread_aware", k.name, sorted(digests), bad])
+        if bad:
+            self.out.violate(
+                "thread_count_changes_result",
+                kernel=k.name,
+                thread_counts_differing_from_1=bad,
+                digests={str(T): d for T, d in digests.items()},
+            )
+        return ret
 
     def launch_oracle(self, k, args, kwargs):
         """O2 at launch: no two test elements of one regular-assembler batch share a live global dof."""
@@ -425,6 +466,20 @@ class Sim(object):
         finally:
             self.in_region = False
             self.run_ctx = None
+
+
+def _digest_outputs(ret, arrays):
+    import hashlib
+
+    h = hashlib.sha256()
+    items = list(ret) if isinstance(ret, (tuple, list)) else [ret]
+    for obj in items + list(arrays):
+        if isinstance(obj, np.ndarray):
+            h.update(str(obj.dtype).encode() + str(obj.shape).encode())
+            h.update(np.ascontiguousarray(obj).tobytes())
+        else:
+            h.update(repr(obj).encode())
+    return h.hexdigest()[:16]
 
 
 def _digest_arrays(d):
